@@ -516,7 +516,7 @@ def run(ctx):
 
 
 MANIFEST = dict(
-    text='Decides by small-scope interpretation of the source (sa/minieval; no statement shape is matched): Polygon::contain returns the closed region under the non-zero rule for every polygon of up to three (thorough: four) vertices on a 3 x 3 sub-grid and for shapes with holes, double winding, opposite lobes, spikes and notches, against all 25 points of the 5 x 5 grid (vertices, edge interiors, edge levels, inside, outside) - the algorithm only compares coordinates and takes the sign of one determinant, so every ordering of a query against an edge is reached; inside()/all_inside()/any_inside()/contain_all()/contain_any(), on ordered groups of up to two (three) shapes including a segment, a single vertex and an empty polygon and point lists of up to two (three) points with contain() answered exactly per member, return the per-point table / conjunction / disjunction of "some member contains the point" (true / false for no points), so a pre-filter, verdict variable or early exit that changes an answer is reported with the group and points. Structurally: area/signed_area/perimeter return 0 below three vertices before reading vertices, area and signed_area share one shoelace prologue+loop, the repetition factor applies to area and perimeter only and after the whole sum, the perimeter is closed, and all three measures take cross products and lengths of vertex differences only (affine typing: translation invariant by construction). Rounding of the determinant for non-integer coordinates, groups beyond the explored sizes and floating-point sums are not decided.',
+    text='Decides by small-scope interpretation of the source (sa/minieval; no statement shape is matched): Polygon::contain returns the closed region under the non-zero rule for every polygon of up to three (thorough: four) vertices on a 3 x 3 sub-grid and for shapes with holes, double winding, opposite lobes, spikes and notches, against all 25 points of the 5 x 5 grid (vertices, edge interiors, edge levels, inside, outside) - the algorithm only compares coordinates and takes the sign of one determinant, so every ordering of a query against an edge is reached; inside()/all_inside()/any_inside()/contain_all()/contain_any(), on ordered groups of up to two (three) shapes including a segment, a single vertex and an empty polygon and point lists of up to two (three) points with contain() answered exactly per member, return the per-point table / conjunction / disjunction of "some member contains the point" (true / false for no points), so a pre-filter, verdict variable or early exit that changes an answer is reported with the group and points. Structurally: area/signed_area/perimeter return 0 below three vertices before reading vertices, area and signed_area share one shoelace prologue+loop, the repetition factor applies to area and perimeter only and after the whole sum, the perimeter is closed, and all three measures take cross products and lengths of vertex differences only (affine typing: translation invariant by construction). Rounding of the determinant for non-integer coordinates, groups beyond the explored sizes and floating-point sums are not decided. Polygon::area, signed_area and perimeter are decided by interpretation on 12 integer polygons with and without a repetition (R-MODEL.measures: shoelace sum, closing edge, copies, 0 below three vertices).',
     note='Trusted: clang front end, gx, sa rules. Conditions are interpreted only as Boolean combinations of comparisons; anything else raises analysis-broken.',
-    technique='small-scope interpretation of the source by the checker\'s own AST interpreter (no compiled code is run; bounded explicit-state exploration, closer to bounded model checking than to dataflow): Polygon::contain against the exact closed region on an integer grid that reaches every ordering of a point against an edge, the five group queries against the quantifier over exact membership; clone/shape/affine-typing rules for the measures',
+    technique='small-scope interpretation of the source by the checker\'s own AST interpreter (no compiled code is run; bounded explicit-state exploration, closer to bounded model checking than to dataflow): Polygon::contain against the exact closed region on an integer grid that reaches every ordering of a point against an edge, the five group queries against the quantifier over exact membership; clone/shape/affine-typing rules for the measures + interpretation of the three measures on integer polygons (sa/minieval)',
     design='§4 C14')
